@@ -70,6 +70,7 @@ func c03Scenarios(c *vlib.Ctx) []c03Scenario {
 		for _, k := range []string{"failed", "lost"} {
 			out = append(out, c03Scenario{State: st, Critical: true, Kind: k, Instant: "late-reply", Delay: k == "lost"})
 		}
+		out = append(out, c03Scenario{State: st, Critical: true, Kind: "failed", Instant: "transition"})
 		out = append(out, c03Scenario{State: st, Critical: true, Kind: "failed", Instant: "late-reply", GoErrorHookFails: true})
 		out = append(out, c03Scenario{State: st, Critical: true, Kind: "killed", Instant: "idle", GoErrorHookFails: true})
 	}
@@ -477,6 +478,23 @@ func c03Run(c *vlib.Ctx, idx int, sc c03Scenario) {
 		}
 		c.Count("error_reached", 1)
 		c.Count("error_latency_ms", time.Since(t0).Milliseconds())
+		if sc.State == "CONFIGURED" && (sc.Instant == "transition" || sc.Instant == "late-reply") {
+			// the fault hit while START_ACTIVITY was in progress: if that start had opened a run (start
+			// timestamp set), its end has to be recorded as well
+			time.Sleep(300 * time.Millisecond)
+			ctx, cancel := coresim.Ctx(20 * time.Second)
+			ge, gerr := s.Client.GetEnvironment(ctx, &pb.GetEnvironmentRequest{Id: envID})
+			cancel()
+			if gerr == nil {
+				uv := ge.GetEnvironment().GetUserVars()
+				if uv["run_start_time_ms"] != "" {
+					c.Count("end_of_run_checks_after_failed_start", 1)
+					if uv["run_end_time_ms"] == "" {
+						fail("END-OF-RUN-MISSING", "a critical task died while START_ACTIVITY was in progress: the run was opened (run_start_time_ms="+uv["run_start_time_ms"]+"), the environment ended in ERROR, but run_end_time_ms is empty")
+					}
+				}
+			}
+		}
 		if sc.State == "RUNNING" && sc.Instant != "transition" && sc.Instant != "late-reply" {
 			// the end of the run is recorded
 			time.Sleep(300 * time.Millisecond)
